@@ -34,15 +34,24 @@ HasPrim(v, ps) == CASE v.k = "prim" -> v.p \in ps
                     [] v.k = "unnamed" -> \E i \in DOMAIN v.vals : HasPrim(v.vals[i], ps)
                     [] v.k = "variant" -> HasPrim(v.vals, ps)
                     [] OTHER -> FALSE
-IsValue == X.res = "value"
+\* the property's domain: compact wraps unsigned integers or single-field wrappers of them (real chain metadata also has Compact<()>)
+RECURSIVE CompactInnerOK(_, _)
+CompactInnerOK(id, fuel) ==
+  IF fuel = 0 \/ ~HasId(Reg, id) THEN FALSE
+  ELSE LET d == Ty(Reg, id).def IN
+       CASE d.k = "prim" -> d.p \in UnsignedPrims
+         [] d.k = "comp" -> Len(d.fields) = 1 /\ CompactInnerOK(d.fields[1].ty, fuel - 1)
+         [] OTHER -> FALSE
+InDomain == \A j \in Reach(Reg, X.id) \cup {X.id} : Ty(Reg, j).def.k = "compact" => CompactInnerOK(Ty(Reg, j).def.of, 4)
+IsValue == X.res = "value" /\ InDomain
 Failed ==
-  (IF X.res = "panic" THEN {"C12.NoPanic"} ELSE {})
+  (IF X.res = "panic" /\ InDomain THEN {"C12.NoPanic"} ELSE {})
   \cup (IF IsValue /\ ~ValueConforms(Reg, X.id, X.v) THEN {"C12.ValueConformsToType"} ELSE {})
   \cup (IF IsValue /\ X.enc # "ok" THEN {"C12.Encodes"} ELSE {})
   \cup (IF IsValue /\ X.enc = "ok" /\ ~DecodesExactly(Reg, X.id, X.bytes) THEN {"C12.BytesAreAnEncodingOfTheType"} ELSE {})
   \cup (IF IsValue /\ X.enc = "ok" /\ ~(X.dec = "ok" /\ X.rest = 0 /\ X.eq) THEN {"C12.DecodesBackEqual"} ELSE {})
   \cup (IF X.again = "same" THEN {} ELSE {"C12.SameSeedSameValue"})
-  \cup (IF ~IsValue /\ ~CanError(Reg, X.id, FALSE) THEN {"C12.ValueWheneverPossible"} ELSE {})
+  \cup (IF X.res # "value" /\ InDomain /\ ~CanError(Reg, X.id, FALSE) THEN {"C12.ValueWheneverPossible"} ELSE {})
   \cup (IF rejected \/ (IsValue /\ (Len(t.stack) # 0 \/ t.failed))
         THEN {"C12.TraceFollowsProtocol"} ELSE {})
 \* known finding: char values cannot be encoded by scale-value (cause outside the repository)
